@@ -12,7 +12,9 @@ RULE = ("one manager life of the PIN protocol on the real FileBasedPin + initial
         "none} x forced change {y,n} x device answer to the new PIN {accepts, refuses, errors} x open failure x "
         "write failure x crash (os._exit) at {after unlock, after the device's ack, after open-truncate, after "
         "close} x platform {Ledger, SGX}; exhaustive over this product in both tiers; the thorough tier adds "
-        "two-life histories (the second life starts from the world the first one left).  non-trivial = the "
+        "two-life histories (the second life starts from the world the first one left); plus the same protocol "
+        "reached through a link repair (request on a manager with a pending change whose device came back locked) "
+        "through the real _RequestHandler: after a change attempt the request must end in a shutdown.  non-trivial = the "
         "device was unlocked; distinct by hash of the canonical case")
 ASSUMPTIONS = ["OS-level write atomicity below Python's open/write/close is not modelled: the crash points are "
                "'after open(…, \"wb\") truncated the file' and 'after close'"]
@@ -33,8 +35,41 @@ def worker_init():
 
 
 def run_impl(op, inp):
+    if op == "line.C10":
+        from .. import mgr
+        return mgr.run_line(inp)
     from .. import pinrun
     return pinrun.run_life(inp)
+
+
+def repair_cases(tier, rng):
+    """the PIN protocol reached through a link repair instead of a start: the manager holds a pending change,
+    the link broke, the device comes back locked; the next request unlocks it and attempts the change"""
+    from . import linegen
+    from .. import reqgen
+    out = []
+    reqs = [lambda: reqgen.simple_request(rng, "getPubKey"), lambda: reqgen.simple_request(rng, "blockchainState"),
+            lambda: reqgen.sign_hash_request(rng), lambda: reqgen.simple_request(rng, "blockchainParameters")]
+    faults = [None] + [("w", 0x69A0), ("w", 0x6F01), ("t",), ("r",), ("W",), ("w", 0x6A01)]
+    for plat in ("ledger", "sgx"):
+        for newpin in ("ok", "invalid", "error"):
+            for needs in (True, False):
+                for fs in ([], [False]):
+                    for k, mkreq in enumerate(reqs):
+                        for f in (faults if tier == "thorough" else [None, rng.choice(faults[1:])]):
+                            pol = {}
+                            if f is not None:
+                                pol["faults"] = {str(rng.randrange(4, 22)): list(f)}
+                            c = linegen.line_case(rng, mkreq(), None, policy=pol, stream="repair-" + plat,
+                                                  comm_issue=True, conns=[True], platform=plat,
+                                                  pin={"pin": DEV.hex(), "needs_change": needs},
+                                                  gen_pins=[NEW.hex()], fs_ok=fs)
+                            c.input["dev"]["state"] = {"mode": 2, "onboarded": 1, "newpin_result": newpin,
+                                                       "exit_drops_link": rng.random() < 0.5}
+                            c.op = "line.C10"
+                            c.meta.update(crash="none", dev=newpin)
+                            out.append(c)
+    return out
 
 
 def worlds():
@@ -71,6 +106,7 @@ def gen(tier, rng):
         for f, d in worlds():
             for life in lives():
                 out.append(mk(f, d, DEV, life, plat))
+    out += repair_cases(tier, rng)
     if tier == "thorough":
         # two-life histories: replay the first life in the model-free way (the implementation itself)
         from .. import pinrun
@@ -89,17 +125,24 @@ def gen(tier, rng):
 
 def tags(c, o):
     t = [c.meta.get("stream", "?"), "crash:" + c.meta.get("crash", "?"), "dev:" + c.meta.get("dev", "?")]
-    if isinstance(o, dict):
+    if isinstance(o, dict) and c.op == "line.C10":
+        t.append("shutdown:%s" % o.get("shutdown"))
+        t.append("change-attempted" if any(e[1:5] in ("8008", "80a5") for e in o.get("events", []) if e[:1] == "A") else "no-change")
+    elif isinstance(o, dict):
         t.append("outcome:" + str(o.get("outcome")))
     return t
 
 
 def nontrivial(c, o):
+    if c.op == "line.C10":
+        return isinstance(o, dict) and any(e.startswith("A") for e in o.get("events", []))
     return isinstance(o, dict) and o.get("sent") is not None
 
 
 def finding_signature(c, o):
     i = c.input
+    if c.op == "line.C10":
+        return None
     if i["dev"] == "accept" and (i["crash"] in ("afterAck", "afterOpen") or not i["open_ok"] or not i["write_ok"]):
         fault = i["crash"] if i["crash"] in ("afterAck", "afterOpen") else ("open-fails" if not i["open_ok"] else "write-fails")
         return {"call_site": "ledger/pin.py:commit_change / ledger/protocol.py:_handle_bootloader",
